@@ -266,7 +266,14 @@ def check(ctx, rep: Report):
     if rh is None:
         raise AnalysisError("C05.RESETALL: ResetMethod.reset not found")
     fn = rh.impl.node
-    loops = [n for n in walk_own(fn) if isinstance(n, ast.For)]
+    from .base import with_callees
+    loops = []
+    for g in with_callees(ctx.p, rh.impl, 2):          # the loop may live in a private helper of reset()
+        if g.module.name.startswith(ctx.p.package + ".methods"):
+            for n in walk_own(g.node):
+                if isinstance(n, ast.For) and not loops:
+                    loops.append(n)
+                    fn = g.node
     bad = []
     if not loops:
         bad.append("no loop over the managed attributes")
